@@ -44,6 +44,7 @@ func (r *Run) callSeqRec(fd *FuncDecl, onPath map[*FuncDecl]bool, depth int) []s
 			pos    int
 			text   string
 			helper *FuncDecl
+			call   *ast.CallExpr
 		}
 		var items []item
 		ast.Inspect(u.Body, func(n ast.Node) bool {
@@ -79,14 +80,21 @@ func (r *Run) callSeqRec(fd *FuncDecl, onPath map[*FuncDecl]bool, depth int) []s
 				k += " @" + strings.Join(lc, " / ")
 			}
 			// evaluation order: arguments before the call itself → order by end position
-			items = append(items, item{int(c.End()), k, r.unexportedHelper(u.Info, c)})
+			items = append(items, item{int(c.End()), k, r.unexportedHelper(u.Info, c), c})
 			return true
 		})
 		sort.SliceStable(items, func(i, j int) bool { return items[i].pos < items[j].pos })
 		for _, it := range items {
 			out = append(out, it.text)
 			if it.helper != nil {
-				out = append(out, r.callSeqRec(it.helper, onPath, depth+1)...)
+				ps := newParamSubst(u, it.call)
+				sfx := ""
+				if lc := u.loopContext(it.call); len(lc) > 0 {
+					sfx = strings.Join(lc, " / ")
+				}
+				for _, op := range r.callSeqRec(it.helper, onPath, depth+1) {
+					out = append(out, mergeContexts(ps.apply(op), sfx, ""))
+				}
 			}
 		}
 	}
